@@ -108,7 +108,7 @@ def run_property(modname, replay_path=None):
     hist = counters.get("process_histories", 0) + counters.get("thread_histories", 0)
     if lt and hist and lt > 0.2 * hist:
         rep.inconclusive_because(f"the history checker timed out on {lt} of {hist} histories")
-    if hasattr(mod, "min_required"):
+    if hasattr(mod, "min_required") and not replay_path:      # (a replay re-runs ONE witness: floors are for full runs)
         for name, need in mod.min_required(tier()).items():
             got = counters.get(name, 0) if name != "evaluations" else tot.evaluations
             if got < need:
